@@ -196,9 +196,9 @@ def setup(env, fs):
     C.init_config(logdir=FakePath(fs, '/log'))
 
 
-def make_module(fs, cfg=None, reinit=True):
+def make_module(fs, cfg=None, reinit=True, with_limit=False):
     from frappy.core import Parameter, FloatRange, IntRange, EnumType, StringType, StructOf
-    from frappy.persistent import PersistentMixin, PersistentParam
+    from frappy.persistent import PersistentMixin, PersistentParam, PersistentLimit
     from frappy.secnode import SecNode
     from frappy.protocol.dispatcher import Dispatcher
     wlog = []
@@ -212,6 +212,8 @@ def make_module(fs, cfg=None, reinit=True):
                              persistent='auto')
         p6 = PersistentParam('readonly persistent (no write method at all)', FloatRange(0, 100), default=0.5, persistent='auto')
         q = Parameter('not persistent', FloatRange(), readonly=False, default=0)
+        if with_limit:
+            p1_max = PersistentLimit()       # a limit parameter that is to be kept as well
 
         def write_p1(self, value):
             wlog.append(('p1', value))
@@ -247,6 +249,7 @@ def cases(tier):
         out.append({'fn': 'run_fault_initial', 'id': f'{mode}/initial-save', 'params': {'mode': mode}})
     out.append({'fn': 'run_roundtrip', 'id': 'roundtrip', 'params': {}})
     out.append({'fn': 'run_precedence', 'id': 'precedence', 'params': {}})
+    out.append({'fn': 'run_persistent_limit', 'id': 'persistent-limit', 'params': {}})
     for i in range(len(CORRUPT)):
         out.append({'fn': 'run_corrupt', 'id': f'corrupt/{i}', 'params': {'i': i}})
     out.append({'fn': 'run_text_truncation', 'id': 'text-truncation', 'params': {}})
@@ -492,5 +495,33 @@ def run_text_truncation(env, p):
             env.check(mod.p1 == 1.5 and mod.p2 == 2, K + '/truncated-file-used', cut)
         written = fs.files[TARGET][0]
         env.check(json.loads(written)['p2'] == mod.p2, K + '/rewritten-file-not-complete', cut)
+    # other unusable contents for the real json module: very deep nesting, a bare number, an empty file, binary garbage
+    for name, content in (('deep-nesting', '[' * 100000), ('deep-object', '{"a":' * 50000), ('number', '17'), ('empty', ''),
+                          ('garbage', '\x00\xff\x00')):
+        fs.files = {TARGET: [content]}
+        try:
+            srv, mod, _ = make_module(fs)
+        except Exception as e:
+            env.fail(K + f'/{name}/startup-prevented/' + type(e).__name__, repr(e)[:100])
+            return
+        env.check(mod.p1 == 1.5 and mod.p2 == 2, K + f'/{name}/unusable-file-used')
+    for t in REQUIRED_TAGS:
+        env.note(t)
+
+
+def run_persistent_limit(env, p):
+    """a limit parameter declared persistent is saved and restored like every other persistent parameter"""
+    fs = FS()
+    setup(env, fs)
+    srv, mod, wlog = make_module(fs, with_limit=True)
+    mod.writeInitParams()
+    K = 'C17/persistent-limit'
+    v = env.real('limit', 1, 99)
+    mod.p1_max = v
+    mod.saveParameters()
+    snap = file_snapshot(fs, TARGET)
+    env.check(isinstance(snap, dict) and 'p1_max' in snap, K + '/limit-not-in-the-saved-snapshot', sorted(snap) if isinstance(snap, dict) else snap)
+    srv2, mod2, _ = make_module(fs, with_limit=True)
+    env.check(M.eq(mod2.p1_max, v), K + '/limit-not-restored', None)
     for t in REQUIRED_TAGS:
         env.note(t)
